@@ -2044,7 +2044,7 @@ def _get_error_context(input_, token):
 
     i = max(input_.rfind('\n', 0, lexpos), 0)
     line = input_[i:lexpos] + line
-    lines = [line.strip('\r\n')]
+    lines = [line.lstrip('\n').rstrip('\r\n')]
     col = lexpos - i
     while len(lines) < 5 and i > 0:
         end = i
